@@ -313,7 +313,11 @@ impl FactorizedExpandChain {
                     }
 
                     if let Some(result) = expand.next_factorized()? {
-                        self.current_result = Some(result);
+                        // No edge from any source: no path exists. Keeping the bare source
+                        // level would flatten into rows with the path columns missing.
+                        if result.level_count() > 1 {
+                            self.current_result = Some(result);
+                        }
                     }
                 }
             }
@@ -321,8 +325,13 @@ impl FactorizedExpandChain {
             // Expand the deepest level of the factorized result
             // This adds a new level without flattening - the key to memory savings
             if let Some(mut factorized) = self.current_result.take() {
+                let levels_before = factorized.level_count();
                 self.expand_deepest_level(&mut factorized, source_column, direction, edge_type)?;
-                self.current_result = Some(factorized);
+                // A step that adds no level found no edge at all: the chain has no result
+                // (the shorter paths must not survive as rows with missing columns)
+                if factorized.level_count() > levels_before {
+                    self.current_result = Some(factorized);
+                }
             }
         }
 
